@@ -5,13 +5,13 @@ covered by a BOUNDED check on the real functions with hostile inputs (labelled b
 import os
 from pyvc.api import contract, cls, ghost, lemma
 from . import shared_grid, c05_compact, c16_limits  # noqa
-from .c05_paths import HOSTILE, HOSTILE_KEYS
+from .c05_paths import HOSTILE, HOSTILE_KEYS, hostile_value
 
 def _gen_dims(gen, rng):
     n = rng.randint(0, 3)
     d = {}
     for _ in range(n):
-        d[rng.choice(HOSTILE_KEYS)] = rng.choice(HOSTILE)
+        d[hostile_value(rng, HOSTILE_KEYS)] = hostile_value(rng)
     return {'dimensions': {'$pydict': d} if d or rng.random() < 0.8 else None}
 
 
@@ -95,3 +95,49 @@ for _mod, _cls_, _ext, _ctor, _dictf in (('mapproxy.cache.mbtiles:', 'MBTilesLev
              opaque_spec={_ctor: {'pure': True}}, opaque=[_ctor],
              requires=['level >= 0'],
              trace=[_level_db_name(_ext, _ctor)])
+
+
+# ---- the id in the lock file names is a pure function of the cache location: every process that serves this cache computes the SAME --
+def _lock_id_is_md5_of_location(ex, st, post, result):
+    import z3
+    cd = post.env['cache_dir']
+    h = st.heap[post.env['self'].ref]
+    lid = h['lock_cache_id']
+    t = getattr(lid, 't', None)
+    ok = False
+    if t is not None:
+        subs = list(_subterms(t))
+        digests = [x for x in subs if z3.is_app(x) and x.decl().name() == 'md5hex']
+        # the only symbolic input anywhere in the id is the cache location, and it goes through the md5 digest
+        free = [x for x in subs if z3.is_const(x) and x.decl().kind() == z3.Z3_OP_UNINTERPRETED]
+        ok = len(digests) == 1 and all(x.eq(cd.t) for x in free) and any(x.eq(cd.t) for x in _subterms(digests[0])) \
+            and (t.eq(digests[0]) or (z3.is_app(t) and t.decl().kind() == z3.Z3_OP_SEQ_CONCAT and t.num_args() == 2
+                                      and z3.is_string_value(t.arg(0)) and t.arg(1).eq(digests[0])))
+    ok = ok and not [e for e in st.trace if e.name in ('hash', 'getpid', 'time', 'random', 'randint', 'uuid4', 'id')]
+    yield ('lock_id_is_digest_of_cache_location', z3.BoolVal(bool(ok)),
+           "lock_cache_id = [constant prefix +] md5(cache location as UTF-8).hexdigest(): a function of the configured location only - "
+           'not of the interpreter (hash() is randomised per process), the process id or the time - so independently started processes '
+           'that share a cache contend for the same lock files')
+
+
+def _subterms(t):
+    import z3
+    yield t
+    if z3.is_app(t):
+        for c in t.children():
+            for x in _subterms(c):
+                yield x
+
+
+from pyvc import tracelib as T  # noqa
+for _key, _extra in (('mapproxy.cache.file:FileCache.__init__', dict(file_ext='str', directory_layout='opaque', link_single_color_images='opaque',
+                                                                     coverage='opaque', image_opts='opaque', directory_permissions='opaque',
+                                                                     file_permissions='opaque')),
+                     ('mapproxy.cache.compact:CompactCacheBase.__init__', dict(coverage='opaque', directory_permissions='opaque',
+                                                                               file_permissions='opaque'))):
+    contract(_key, props=['C08', 'C09'],
+             types=dict(_extra, cache_dir='str'), returns='none', default_callee='opaque',
+             opaque_spec={'new': {'pure': True}, 'hexdigest': {'returns': 'str', 'pure': True}, 'encode': {'pure': True}, '__init__': {'pure': True},
+                          'location_funcs': {'returns': 'tuple[opaque,opt[opaque]]', 'pure': True}, 'super': {'pure': True}},
+             opaque=['location_funcs', '__init__'],
+             trace=[_lock_id_is_md5_of_location])
